@@ -36,6 +36,10 @@ r6 = [json.load(open(dd + 'meta.json')) for dd in sorted(glob.glob('/verif/seede
 own6 = sum(1 for m in r6 if m['confirmed'].get('own_property_check_detected_on_first_run'))
 any6 = sum(1 for m in r6 if m['confirmed'].get('first_run', {}).get('detected_by'))
 tail = tail.replace('@@R6_STATS@@', "%d of %d were caught at once by the targeted check, %d of %d by some check" % (own6, len(r6), any6, len(r6)))
+r7 = [json.load(open(dd + 'meta.json')) for dd in sorted(glob.glob('/verif/seeded/C*-13/') + glob.glob('/verif/seeded/C*-14/'))]
+own7 = sum(1 for m in r7 if m['confirmed'].get('own_property_check_detected_on_first_run'))
+any7 = sum(1 for m in r7 if m['confirmed'].get('first_run', {}).get('detected_by'))
+tail = tail.replace('@@R7_STATS@@', "%d of %d were caught at once by the targeted check, %d of %d by some check" % (own7, len(r7), any7, len(r7)))
 tail = tail.replace('@@R5_STATS@@', "%d of %d were caught at once by the targeted check, %d of %d by some check" % (own5, len(r5), any5, len(r5)))
 tail = tail.replace('@@COVERAGE_TABLE@@', cov).replace('@@SEED_TABLE@@', seeds).replace('@@MUTANT_TABLE@@', mut)
 open('/verif/DESIGN.md', 'w').write(d.rstrip('\n') + "\n\n" + head + tail)
